@@ -14,7 +14,8 @@ RULE = ('cases = one rendered line (or namespace-map file): tables of string cel
         'real callers pass), tab-separated ob-raw-dump lines, and ob-vw lines (1-5 tokens per namespace, shuffled and omitted namespaces, '
         'unknown namespaces, many lines parsed with the same header in one process); wrong field counts through the streaming loop; '
         'namespace maps with 2- and 3-part lines, types f32/""/other and garbage lines. distinct = (format, cell-class vector, line hash); '
-        'non-trivial = the line has an empty edge cell, a quoted delimiter/quote, edge whitespace, or an omitted namespace.')
+        'non-trivial = the line has an empty edge cell, a quoted delimiter/quote, edge whitespace, or an omitted namespace. Sources end to end: '
+        'ob-vw directories (namespace map + data.vw.gz) and ob-csv directories (dataset_desc.json + data.csv) through get_dataset_info and the streaming loop.')
 REQUIRED = {'csv-roundtrip': 300, 'tsv-roundtrip': 300, 'vw-roundtrip': 300, 'wrong-count-rejected': 20, 'namespace-map': 30}
 ASSUMPTIONS = ['cells contain no line breaks; VW tokens contain no space, "|" or line break and are non-empty', 'the VW two-character prefix is the first two characters of the joined token string of a namespace',
                'two-part namespace-map lines use ids without "_" (the documented form)']
